@@ -413,12 +413,13 @@ def register_b4(reg, B4T):
     reg.add(C.Contract(f"{b4}.is_truthy", params=dict(self=B4T), ensures={"iff_TRUE_or_PRESUMABLY_TRUE": "result == (self.value >= 3)"}, result=C.Bool(), **common))
     reg.add(C.Contract(f"{b4}.is_falsy", params=dict(self=B4T), ensures={"iff_FALSE_or_PRESUMABLY_FALSE": "result == (self.value <= 2)"}, result=C.Bool(), **common))
 
-    def from_bool_result(I, env):
-        # at call sites the (verified) postcondition is used in closed form: the member whose value is `4 if b else 1`
-        t = I.truth(env.vars["b"])
+    def from_bool_at_call_sites(I, b):
+        # at call sites the (verified) postcondition is used in closed form: the member whose value is `4 if b else 1`;
+        # a symbolic truth value stays symbolic instead of forking the path
+        t = I.truth(b)
         return ML.b4((TRUE if t else FALSE) if isinstance(t, bool) else SV(z3.If(t, z3.IntVal(TRUE), z3.IntVal(FALSE))))
 
-    reg.add(C.Contract(f"{b4}.from_bool", params=dict(b=C.Bool()), ensures={"TRUE_iff_b": "result.value == (4 if b else 1)"}, result=from_bool_result, **common))
+    reg.add(C.Contract(f"{b4}.from_bool", params=dict(b=C.Bool()), ensures={"TRUE_iff_b": "result.value == (4 if b else 1)"}, call_model=from_bool_at_call_sites, **common))
 
 
 # ================================================================================================ (1) Atomic / Not / And / Or / Next / constant
@@ -1062,8 +1063,9 @@ def formula_families():
     d1b = [(u, b) for u in UN] + [(o, b, a) for o in BIN]
     depth1 = [a] + d1a
     depth2 = [(u, x) for u in UN for x in d1a]
-    depth2 += [(o, x, y) for o in BIN for x in d1a for y in [b] + d1b[:4]]
-    depth2 += [(o, y, x) for o in BIN for x in d1a for y in [b]]
+    depth2 += [(o, x, b) for o in BIN for x in d1a]
+    depth2 += [(o, b, x) for o in BIN for x in d1a]
+    depth2 += [(o, (u, a), (v, b)) for o in ("and", "implies") for u in ("next", "always") for v in ("eventually", "next")]
     seen, uniq = set(), []
     for f in depth1 + depth2:
         if f not in seen:
@@ -1195,7 +1197,7 @@ def register_end_to_end(reg, B4T):
         )
         reg.add(holder["c"], key=key)
 
-    CH = 12
+    CH = 8
     for k in range(0, len(plain), CH):
         make(f"until only at position 0, formulas {k}-{min(k + CH, len(plain)) - 1}", plain[k : k + CH], "depth <= 2 over a, b; `until` never below next/always/eventually/until")
     for k in range(0, len(nested), CH):
